@@ -524,8 +524,8 @@ class Interp:
             if r is not None:
                 return [(st, r)]
         self.depth += 1
-        if self.depth > 400:
-            raise Unsupported("call depth > 400 in %s" % fn.name)
+        if self.depth > 2500:
+            raise Unsupported("call depth > 2500 in %s" % fn.name)
         try:
             paths = self.exec_fn(fn, args, st, env)
         finally:
